@@ -435,6 +435,34 @@ func c13CountDiff(a, b *model.SDoc) (string, string) {
 		return mp
 	}
 	ca, cb := count(a), count(b)
+	// several schema definitions / extensions are merged into one by design (findings F-C13-03/04): that is the finding only
+	// as long as nothing the originals said is lost - the operation types and the directives of all of them, in order
+	for _, ext := range []bool{false, true} {
+		said := func(d *model.SDoc) string {
+			var b strings.Builder
+			for _, it := range d.Items {
+				if it.Kind == "schema" && it.Extend == ext {
+					for _, ot := range it.OpTypes {
+						b.WriteString(ot.Op + ":" + ot.Type + ";")
+					}
+				}
+			}
+			b.WriteString(" | ")
+			for _, it := range d.Items {
+				if it.Kind == "schema" && it.Extend == ext {
+					b.WriteString(canonModelDirs(it.Dirs, false) + " ")
+				}
+			}
+			return strings.Join(strings.Fields(b.String()), " ")
+		}
+		k := "schema"
+		if ext {
+			k = "extend-schema"
+		}
+		if ca[k] != cb[k] && ca[k] > 1 && said(a) != said(b) {
+			return "merged-" + k + "-loses-content", fmt.Sprintf("%d %s items said %q, the formatted text says %q", ca[k], k, said(a), said(b))
+		}
+	}
 	for _, k := range []string{"schema", "extend-schema", "directive", "scalar", "type", "interface", "union", "enum", "input", "extend-scalar", "extend-type", "extend-interface", "extend-union", "extend-enum", "extend-input"} {
 		if ca[k] != cb[k] {
 			return "count(" + k + ")", fmt.Sprintf("%d %s items became %d", ca[k], k, cb[k])
